@@ -365,6 +365,7 @@ impl<'s, I: Interner, Solver: SolveDatabase<I>> Fulfill<'s, I, Solver> {
     fn refute(
         &mut self,
         goal: InEnvironment<Goal<I>>,
+        outer_minimums: &mut Minimums,
         should_continue: impl std::ops::Fn() -> bool + Clone,
     ) -> Fallible<NegativeSolution> {
         let canonicalized = match self
@@ -383,10 +384,11 @@ impl<'s, I: Interner, Solver: SolveDatabase<I>> Fulfill<'s, I, Solver> {
         let (quantified, _) =
             u_canonicalize(&mut self.infer, self.solver.interner(), &canonicalized);
         let mut minimums = Minimums::new(); // FIXME -- minimums here seems wrong
-        if let Ok(solution) = self
+        let result = self
             .solver
-            .solve_goal(quantified, &mut minimums, should_continue)
-        {
+            .solve_goal(quantified, &mut minimums, should_continue);
+        outer_minimums.update_interrupted_from(minimums);
+        if let Ok(solution) = result {
             if solution.is_unique() {
                 Err(NoSolution)
             } else {
@@ -498,7 +500,7 @@ impl<'s, I: Interner, Solver: SolveDatabase<I>> Fulfill<'s, I, Solver> {
                         solution.is_ambig()
                     }
                     Obligation::Refute(goal) => {
-                        let answer = self.refute(goal.clone(), should_continue.clone())?;
+                        let answer = self.refute(goal.clone(), minimums, should_continue.clone())?;
                         answer == NegativeSolution::Ambiguous
                     }
                 };
